@@ -335,7 +335,7 @@ Qed.
 (* ------------------------------------------------------------------ *)
 (* 2. the invariant rule: one induction over the whole run structure    *)
 (* ------------------------------------------------------------------ *)
-Inductive ctx := CTop | CMid | CCb (h : nat).
+Inductive ctx := CTop | CMid | CCb (h sig : nat).
 
 Lemma api_batch fx s o : batch (api fx s o) = batch s.
 Proof.
@@ -364,19 +364,25 @@ Qed.
 Lemma msg_finish_batch s h r : batch (msg_finish s h r) = r.
 Proof. unfold msg_finish. destruct (h_oneshot _); [rewrite stop_batch|]; reflexivity. Qed.
 
+Lemma msg_after_cb_batch fr s h sig r : batch (msg_after_cb fr s h sig r) = r.
+Proof.
+  unfold msg_after_cb. destruct fr; [|apply msg_finish_batch].
+  destruct (_ && _); [rewrite stop_batch|]; reflexivity.
+Qed.
+
 Lemma msg_skip_batch fs s h r : batch (msg_skip fs s h r) = r.
 Proof. unfold msg_skip. destruct fs; [reflexivity | apply msg_finish_batch]. Qed.
 
 Section Rule.
-  Variables (fx fs : bool) (beh : nat -> list op).
+  Variables (fx fs fr : bool) (beh : nat -> list op).
   Variable P : ctx -> state -> Prop.
   Hypothesis H_api : forall c s o, c <> CMid -> P c s -> P c (api_snap fx s o).
   Hypothesis H_begin : forall s l, P CTop s -> P CMid (log s (ERunBegin l)).
   Hypothesis H_take : forall s l, P CMid s -> batch s = [] -> P CMid (take_batch s l).
   Hypothesis H_enter : forall s h sig r, P CMid s -> batch s = (h, sig) :: r ->
-    sig = h_signum (get s h) -> P (CCb h) (cb_enter s h sig).
-  Hypothesis H_exit : forall s h sig r, P (CCb h) s -> batch s = (h, sig) :: r ->
-    P CMid (msg_finish (log s (ECbEnd h)) h r).
+    sig = h_signum (get s h) -> P (CCb h sig) (cb_enter s h sig).
+  Hypothesis H_exit : forall s h sig r, P (CCb h sig) s -> batch s = (h, sig) :: r ->
+    P CMid (msg_after_cb fr (log s (ECbEnd h)) h sig r).
   Hypothesis H_skip : forall s h sig r, P CMid s -> batch s = (h, sig) :: r ->
     sig <> h_signum (get s h) -> P CMid (msg_skip fs s h r).
   (* [Rq s h]: what is known about a handle taken from the closing queue *)
@@ -395,11 +401,11 @@ Section Rule.
   Proof. intros Hc; induction os; intros; simpl; auto. Qed.
 
   Lemma rule_msg s m r : P CMid s -> batch s = m :: r ->
-    P CMid (process_msg fx fs beh s m r) /\ batch (process_msg fx fs beh s m r) = r.
+    P CMid (process_msg fx fs fr beh s m r) /\ batch (process_msg fx fs fr beh s m r) = r.
   Proof.
     intros HP Hb. destruct m as [h sig]. unfold process_msg. cbn [fst snd].
     destruct (Nat.eqb_spec sig (h_signum (get s h))) as [E|E].
-    - split; [|apply msg_finish_batch].
+    - split; [|apply msg_after_cb_batch].
       eapply H_exit with (sig := sig).
       + apply rule_script; [discriminate|]. eapply H_enter; eauto.
       + rewrite script_batch. exact Hb.
@@ -407,14 +413,14 @@ Section Rule.
   Qed.
 
   Lemma rule_msgs b : forall s, P CMid s -> batch s = b ->
-    P CMid (process_msgs fx fs beh s b) /\ batch (process_msgs fx fs beh s b) = [].
+    P CMid (process_msgs fx fs fr beh s b) /\ batch (process_msgs fx fs fr beh s b) = [].
   Proof.
     induction b as [|m r IH]; intros s HP Hb; simpl; auto.
     destruct (rule_msg s m r HP Hb) as [A B]. apply IH; auto.
   Qed.
 
   Lemma rule_event fuel l : forall s, P CMid s -> batch s = [] ->
-    P CMid (signal_event fx fs beh fuel s l) /\ batch (signal_event fx fs beh fuel s l) = [].
+    P CMid (signal_event fx fs fr beh fuel s l) /\ batch (signal_event fx fs fr beh fuel s l) = [].
   Proof.
     induction fuel as [|f IH]; intros s HP Hb; cbn [signal_event]; auto.
     destruct (pipe_of s l) eqn:Ep; auto.
@@ -434,17 +440,17 @@ Section Rule.
   Qed.
 
   Lemma rule_dispatch fuel l s : P CTop s -> batch s = [] ->
-    P CTop (dispatch fx fs beh fuel s l) /\ batch (dispatch fx fs beh fuel s l) = [].
+    P CTop (dispatch fx fs fr beh fuel s l) /\ batch (dispatch fx fs fr beh fuel s l) = [].
   Proof.
     intros HP Hb. unfold dispatch.
     destruct (rule_event fuel l (log s (ERunBegin l))) as [A B]; auto.
-    destruct (rule_finish_all l (clq_of (signal_event fx fs beh fuel (log s (ERunBegin l)) l) l)
-                (set_clq (signal_event fx fs beh fuel (log s (ERunBegin l)) l) l [])) as [C D]; auto.
+    destruct (rule_finish_all l (clq_of (signal_event fx fs fr beh fuel (log s (ERunBegin l)) l) l)
+                (set_clq (signal_event fx fs fr beh fuel (log s (ERunBegin l)) l) l [])) as [C D]; auto.
     intros h Hh. apply H_q_clq. eapply H_q0; eauto.
   Qed.
 
   Lemma rule_top fuel s o : P CTop s -> batch s = [] ->
-    P CTop (top fx fs beh fuel s o) /\ batch (top fx fs beh fuel s o) = [].
+    P CTop (top fx fs fr beh fuel s o) /\ batch (top fx fs fr beh fuel s o) = [].
   Proof.
     intros HP Hb.
     assert (G : P CTop (api_snap fx s o) /\ batch (api_snap fx s o) = []).
@@ -453,7 +459,7 @@ Section Rule.
   Qed.
 
   Theorem rule_run fuel os : forall s, P CTop s -> batch s = [] ->
-    P CTop (run fx fs beh fuel s os) /\ batch (run fx fs beh fuel s os) = [].
+    P CTop (run fx fs fr beh fuel s os) /\ batch (run fx fs fr beh fuel s os) = [].
   Proof.
     induction os as [|o os IH]; intros s HP Hb; simpl; auto.
     destruct (rule_top fuel s o HP Hb). apply IH; auto.
@@ -484,7 +490,7 @@ Definition mode_step (e : event) (h : nat) (m : mode) : mode :=
   | EOp (OStop h') _ => if h' =? h then MIdle else m
   | EOp (OClose h') _ => if h' =? h then MIdle else m
   | ECb h' _ => if h' =? h then match m with MOne s false => MOne s true | _ => m end else m
-  | ECbEnd h' => if h' =? h then match m with MOne _ _ => MIdle | _ => m end else m
+  | ECbEnd h' => if h' =? h then match m with MOne _ true => MIdle | _ => m end else m
   | ESnap _ a => if nth h a true then m else MIdle
   | _ => m
   end.
@@ -521,7 +527,7 @@ Definition link (c : ctx) (h : nat) (m : mode) (x : handle) : Prop :=
   | MIdle => h_signum x = 0
   | MPers sg => h_signum x = sg \/ (h_signum x = 0 /\ c = CMid)
   | MOne sg k => h_oneshot x = true /\ (h_signum x = sg \/ (h_signum x = 0 /\ c = CMid)) /\
-                 (k = true -> c = CCb h)
+                 (k = true -> c = CCb h sg)
   end.
 
 Record TInv (c : ctx) (s : state) : Prop := {
@@ -547,7 +553,7 @@ Definition link2 (cs ck : ctx) (h : nat) (m : mode) (x : handle) : Prop :=
   | MIdle => h_signum x = 0
   | MPers sg => h_signum x = sg \/ (h_signum x = 0 /\ cs = CMid)
   | MOne sg k => h_oneshot x = true /\ (h_signum x = sg \/ (h_signum x = 0 /\ cs = CMid)) /\
-                 (k = true -> ck = CCb h)
+                 (k = true -> ck = CCb h sg)
   end.
 
 Lemma link_link2 c h m x : link c h m x <-> link2 c c h m x.
@@ -555,7 +561,7 @@ Proof. destruct m; simpl; tauto. Qed.
 
 (* a snapshot re-synchronises the observer: afterwards nothing is pending *)
 Lemma tinv_snap_gen cs ck c' s :
-  (forall h, ck = CCb h -> c' = CCb h) ->
+  (forall h g, ck = CCb h g -> c' = CCb h g) ->
   (forall h, h_active (get s h) = negb (h_signum (get s h) =? 0)) ->
   (forall l m, In m (pipe_of s l) -> snd m <> 0) ->
   (forall m, In m (batch s) -> snd m <> 0) ->
@@ -581,7 +587,7 @@ Proof.
 Qed.
 
 Lemma tinv_snap c c' s :
-  (forall h, c = CCb h -> c' = CCb h) ->
+  (forall h g, c = CCb h g -> c' = CCb h g) ->
   TInv c s -> TInv c' (snap s).
 Proof.
   intros Hc [A Mp Mb N O B L]. eapply tinv_snap_gen with (cs := c) (ck := c); eauto.
@@ -857,6 +863,46 @@ Proof.
     unfold s2. rewrite len_upd_h. reflexivity.
 Qed.
 
+Lemma after_cb_spec fr s h sig r :
+  let s' := msg_after_cb fr s h sig r in
+  (forall h', h <> h' -> get s' h' = get s h') /\
+  h_oneshot (get s' h) = h_oneshot (get s h) /\
+  (h_oneshot (get s h) = true -> (fr = false \/ h_signum (get s h) = sig) -> h_signum (get s' h) = 0) /\
+  ((h_oneshot (get s h) = false \/ (fr = true /\ h_signum (get s h) <> sig)) ->
+   h_signum (get s' h) = h_signum (get s h)) /\
+  tr s' = tr s /\ pipe_of s' = pipe_of s /\ length (hs s') = length (hs s) /\
+  ((forall x, h_active (get s x) = negb (h_signum (get s x) =? 0)) ->
+   forall x, h_active (get s' x) = negb (h_signum (get s' x) =? 0)).
+Proof.
+  cbv zeta. unfold msg_after_cb. destruct fr.
+  2:{ destruct (finish_spec s h r) as (f1&f2&f3&f4&f5&f6&f7&f8). cbv zeta in *.
+      repeat split; auto.
+      - intros [X|[X _]]; [auto|discriminate]. }
+  set (s2 := upd_h (with_batch s r) h h_inc_dispatched).
+  destruct (inc_disp_fields s h r) as (a&b&c&d&e&f&g&i). cbv zeta in *. fold s2 in a, b, c, d, e, f, g, i.
+  assert (O2 : forall h', h <> h' -> get s2 h' = get s h').
+  { intros. unfold s2. rewrite get_upd_other by auto. reflexivity. }
+  assert (A2 : (forall x, h_active (get s x) = negb (h_signum (get s x) =? 0)) ->
+               forall x, h_active (get s2 x) = negb (h_signum (get s2 x) =? 0)).
+  { intros A x. destruct (Nat.eq_dec h x) as [<-|N]; [rewrite d, b; apply A | rewrite O2 by auto; apply A]. }
+  rewrite c, b. destruct (h_oneshot (get s h)) eqn:Ef; simpl.
+  - destruct (Nat.eqb_spec (h_signum (get s h)) sig) as [Es|Es].
+    + repeat split.
+      * intros. rewrite stop_get_other by auto. auto.
+      * destruct (stop_fields s2 h) as (_&x&_). cbv zeta in x. rewrite x. auto.
+      * intros _ _. apply stop_signum.
+      * intros [X|[_ X]]; [discriminate|contradiction].
+      * rewrite stop_tr. reflexivity.
+      * rewrite stop_pipe. reflexivity.
+      * rewrite stop_len. unfold s2. rewrite len_upd_h. reflexivity.
+      * intros A. apply stop_act. auto.
+    + repeat split; auto.
+      * intros _ [X|X]; [discriminate|contradiction].
+      * unfold s2. rewrite len_upd_h. reflexivity.
+  - repeat split; auto; try discriminate.
+    apply upd_length.
+Qed.
+
 Lemma link_finish c h m x y :
   h_oneshot y = h_oneshot x -> (h_signum y = h_signum x \/ h_signum y = 0) ->
   (forall k sg, m = MOne sg k -> k = true -> False) ->
@@ -891,13 +937,13 @@ Proof.
 Qed.
 
 Lemma tinv_enter s h sig r : TInv CMid s -> batch s = (h, sig) :: r -> sig = h_signum (get s h) ->
-  TInv (CCb h) (cb_enter s h sig).
+  TInv (CCb h sig) (cb_enter s h sig).
 Proof.
   intros [A Mp Mb N O B L] Hb Hs. unfold cb_enter.
   assert (S0 : sig <> 0) by (apply (Mb (h, sig)); rewrite Hb; simpl; auto).
   pose proof (L h) as Lh.
-  assert (T1 : TInv (CCb h) (snap (log s (ECb h sig)))).
-  { eapply tinv_snap_gen with (cs := CMid) (ck := CCb h); ssimpl; auto.
+  assert (T1 : TInv (CCb h sig) (snap (log s (ECb h sig)))).
+  { eapply tinv_snap_gen with (cs := CMid) (ck := CCb h sig); ssimpl; auto.
     - simpl. rewrite N. simpl.
       destruct (mode_of (tr s) h) as [|sg|sg k]; simpl in *.
       + congruence.
@@ -910,7 +956,9 @@ Proof.
     - intros h'. gs. simpl. specialize (L h').
       destruct (Nat.eqb_spec h h') as [<-|Hn].
       + destruct (mode_of (tr s) h) as [|sg|sg [|]]; simpl in *; auto.
-        all: destruct L as (a&b&_); repeat split; auto.
+        * destruct L as (_&_&d). specialize (d eq_refl). discriminate.
+        * destruct L as (a&b&_). repeat split; auto. intros _.
+          destruct b as [b|[b _]]; congruence.
       + destruct (mode_of (tr s) h') as [|sg|sg k]; simpl in *; auto.
         destruct L as (a&b&d). repeat split; auto. intros K; apply d in K; discriminate. }
   destruct T1 as [A1 Mp1 Mb1 N1 O1 B1 L1]. split; auto.
@@ -958,23 +1006,37 @@ Proof.
   - intros x. destruct (inc_disp_same s h r x) as (a&b&_). eapply link_fields; eauto.
 Qed.
 
-Lemma tinv_exit s h sig r : TInv (CCb h) s -> batch s = (h, sig) :: r ->
-  TInv CMid (msg_finish (log s (ECbEnd h)) h r).
+Lemma after_cb_signum fr s h sig r :
+  h_signum (get (msg_after_cb fr s h sig r) h) = h_signum (get s h) \/
+  h_signum (get (msg_after_cb fr s h sig r) h) = 0.
+Proof.
+  destruct (after_cb_spec fr s h sig r) as (_&_&a3&a4&_). cbv zeta in *.
+  destruct (h_oneshot (get s h)) eqn:Ef; [|left; apply a4; auto].
+  destruct fr; [|right; apply a3; auto].
+  destruct (Nat.eq_dec (h_signum (get s h)) sig); [right; apply a3; auto | left; apply a4; auto].
+Qed.
+
+Lemma tinv_exit fr s h sig r : TInv (CCb h sig) s -> batch s = (h, sig) :: r ->
+  TInv CMid (msg_after_cb fr (log s (ECbEnd h)) h sig r).
 Proof.
   intros [A Mp Mb N O B L] Hb.
-  destruct (finish_spec (log s (ECbEnd h)) h r) as (f1&f2&f3&f4&f5&f6&f7&f8). cbv zeta in *.
-  split; rewrite ?f5, ?f6, ?msg_finish_batch; auto.
+  destruct (after_cb_spec fr (log s (ECbEnd h)) h sig r) as (f1&f2&f3&f4&f5&f6&f7&f8). cbv zeta in *.
+  pose proof (after_cb_signum fr (log s (ECbEnd h)) h sig r) as R.
+  split; rewrite ?f5, ?f6, ?msg_after_cb_batch; auto.
   - intros m Hm. apply Mb. rewrite Hb. simpl; auto.
   - simpl. rewrite N; reflexivity.
   - simpl. rewrite O; reflexivity.
   - intros h' Hh. simpl. rewrite B by (ssimpl; lia). destruct (h =? h'); reflexivity.
   - intros h'. simpl. specialize (L h'). destruct (Nat.eqb_spec h h') as [<-|Hn].
-    + revert f2 f3 f4. gs. intros f2 f3 f4.
-      destruct (mode_of (tr s) h) as [|sg|sg k] eqn:Em; simpl in *.
-      * destruct (h_oneshot (get s h)); [apply f3; auto | rewrite f4; auto].
-      * destruct (h_oneshot (get s h)); [right; split; auto | left; rewrite f4; auto].
-        destruct L as [|[]]; auto; discriminate.
-      * destruct L as (a&_). apply f3; auto.
+    + revert f2 f3 f4 R. gs. intros f2 f3 f4 R.
+      destruct (mode_of (tr s) h) as [|sg|sg [|]] eqn:Em; simpl in *.
+      * destruct R; congruence.
+      * destruct L as [L|[_ L]]; [|discriminate]. destruct R as [R|R]; rewrite R; auto.
+      * destruct L as (a&[b|[_ b]]&d); [|discriminate]. specialize (d eq_refl).
+        inversion d; subst. apply f3; auto.
+      * destruct L as (a&[b|[_ b]]&d); [|discriminate]. rewrite f2. repeat split; auto.
+        -- destruct R as [R|R]; rewrite R; auto.
+        -- discriminate.
     + rewrite f1 by auto. gs.
       destruct (mode_of (tr s) h') as [|sg|sg k]; simpl in *; auto.
       * destruct L as [|[]]; auto.
@@ -1022,9 +1084,9 @@ Proof.
   - intros h. unfold get. simpl. destruct h; reflexivity.
 Qed.
 
-Theorem tinv_run fx fs beh fuel c ops : TInv CTop (run fx fs beh fuel (init c) ops).
+Theorem tinv_run fx fs fr beh fuel c ops : TInv CTop (run fx fs fr beh fuel (init c) ops).
 Proof.
-  apply (rule_run fx fs beh TInv) with (Rq := fun _ _ => True); auto using tinv_api, tinv_begin, tinv_take, tinv_clq, tinv_closed, tinv_end, tinv_init.
+  apply (rule_run fx fs fr beh TInv) with (Rq := fun _ _ => True); auto using tinv_api, tinv_begin, tinv_take, tinv_clq, tinv_closed, tinv_end, tinv_init.
   - intros; eapply tinv_enter; eauto.
   - intros; eapply tinv_exit; eauto.
   - intros; eapply tinv_skip_fs; eauto.
@@ -1079,26 +1141,26 @@ Proof.
   rewrite IH by (intros; apply Hn; simpl; auto). apply mode_step_idle. apply Hn; simpl; auto.
 Qed.
 
-Theorem none_after_stop fx fs beh fuel c ops t2 t1 t0 h sig o r :
-  tr (run fx fs beh fuel (init c) ops) = t2 ++ ECb h sig :: t1 ++ EOp o r :: t0 ->
+Theorem none_after_stop fx fs fr beh fuel c ops t2 t1 t0 h sig o r :
+  tr (run fx fs fr beh fuel (init c) ops) = t2 ++ ECb h sig :: t1 ++ EOp o r :: t0 ->
   o = OStop h \/ o = OClose h ->
   (forall e, In e t1 -> ~ is_start_of h e) ->
   False.
 Proof.
   intros Ht Ho Hn.
-  pose proof (t_nas _ _ (tinv_run fx fs beh fuel c ops)) as N. rewrite Ht in N.
+  pose proof (t_nas _ _ (tinv_run fx fs fr beh fuel c ops)) as N. rewrite Ht in N.
   apply nas_ok_app in N. simpl in N. apply andb_true_iff in N. destruct N as [_ N].
   rewrite mode_idle_persist in N; auto; try discriminate.
   simpl. destruct Ho; subst o; simpl; rewrite Nat.eqb_refl; reflexivity.
 Qed.
 
 (* a callback is only ever made for the signal the handle is watching *)
-Theorem callback_matches_watch fx fs beh fuel c ops t2 t0 h sig :
-  tr (run fx fs beh fuel (init c) ops) = t2 ++ ECb h sig :: t0 ->
+Theorem callback_matches_watch fx fs fr beh fuel c ops t2 t0 h sig :
+  tr (run fx fs fr beh fuel (init c) ops) = t2 ++ ECb h sig :: t0 ->
   cb_allowed (mode_of t0 h) sig = true.
 Proof.
   intros Ht.
-  pose proof (t_nas _ _ (tinv_run fx fs beh fuel c ops)) as N. rewrite Ht in N.
+  pose proof (t_nas _ _ (tinv_run fx fs fr beh fuel c ops)) as N. rewrite Ht in N.
   apply nas_ok_app in N. simpl in N. apply andb_true_iff in N. apply N.
 Qed.
 
@@ -1136,40 +1198,40 @@ Proof.
       * discriminate Oe.
       * discriminate Ne.
     + destruct (Nat.eqb_spec h' h) as [->|]; auto.
-      destruct IH as [[E C]|[[E C]|[E C]]]; rewrite E; right; right; split; auto; lia.
+      destruct IH as [[E C]|[[E C]|[E C]]]; rewrite E; [left; auto | right; right; split; auto; lia | right; right; split; auto].
     + destruct (nth h a true); auto.
       destruct IH as [[E C]|[[E C]|[E C]]]; right; right; split; auto; lia.
 Qed.
 
-Theorem oneshot_at_most_one fx fs beh fuel c ops seg t0 h sig :
-  tr (run fx fs beh fuel (init c) ops) = seg ++ EOp (OStartOneshot h sig) 0%Z :: t0 ->
+Theorem oneshot_at_most_one fx fs fr beh fuel c ops seg t0 h sig :
+  tr (run fx fs fr beh fuel (init c) ops) = seg ++ EOp (OStartOneshot h sig) 0%Z :: t0 ->
   sig <> 0 -> mode_of t0 h = MIdle ->
   (forall e, In e seg -> ~ is_api_on h e) ->
   count_cb h seg <= 1.
 Proof.
   intros Ht Hs Hm Hn.
-  pose proof (tinv_run fx fs beh fuel c ops) as T.
+  pose proof (tinv_run fx fs fr beh fuel c ops) as T.
   pose proof (t_nas _ _ T) as N. pose proof (t_one _ _ T) as O. rewrite Ht in N, O.
   destruct (oneshot_session_count seg (EOp (OStartOneshot h sig) 0%Z :: t0) h sig N O) as [[_ C]|[[_ C]|[_ C]]]; auto; try lia.
   simpl. rewrite Nat.eqb_refl, Hm. unfold mode_start.
   destruct (Nat.eqb_spec sig 0); [congruence|]. reflexivity.
 Qed.
 
-Theorem idle_means_stopped fx fs beh fuel c ops h :
-  let s := run fx fs beh fuel (init c) ops in
+Theorem idle_means_stopped fx fs fr beh fuel c ops h :
+  let s := run fx fs fr beh fuel (init c) ops in
   mode_of (tr s) h = MIdle -> h_signum (get s h) = 0 /\ h_active (get s h) = false.
 Proof.
-  cbv zeta. intros Hm. pose proof (tinv_run fx fs beh fuel c ops) as T.
+  cbv zeta. intros Hm. pose proof (tinv_run fx fs fr beh fuel c ops) as T.
   pose proof (t_link _ _ T h) as L. rewrite Hm in L. simpl in L.
   split; auto. rewrite (t_act _ _ T h), L. reflexivity.
 Qed.
 
 (* ... and is then stopped: once the callback of a one-shot session has returned the
    handle is stopped (until the program starts it again) *)
-Theorem oneshot_then_stopped fx fs beh fuel c ops seg t0 h sg k :
-  let s := run fx fs beh fuel (init c) ops in
+Theorem oneshot_then_stopped fx fs fr beh fuel c ops seg t0 h sg :
+  let s := run fx fs fr beh fuel (init c) ops in
   tr s = seg ++ ECbEnd h :: t0 ->
-  mode_of t0 h = MOne sg k ->
+  mode_of t0 h = MOne sg true ->
   (forall e, In e seg -> ~ is_start_of h e) ->
   h_signum (get s h) = 0 /\ h_active (get s h) = false.
 Proof.
@@ -1738,6 +1800,14 @@ Proof.
   split; [apply score_stop; auto | apply sclosing_stop; auto].
 Qed.
 
+Lemma sinv_after_cb fr s h sig r : SInv s -> batch s = (h, sig) :: r -> SInv (msg_after_cb fr s h sig r).
+Proof.
+  intros I Hb. unfold msg_after_cb. destruct fr; [|eapply sinv_finish; eauto].
+  pose proof (sinv_pop s h sig r I Hb) as [C2 K2].
+  destruct (_ && _); [|split; auto].
+  split; [apply score_stop; auto | apply sclosing_stop; auto].
+Qed.
+
 Lemma sinv_take s l : SInv s -> batch s = [] -> SInv (take_batch s l).
 Proof.
   intros [C K] Hb. split; [|exact K].
@@ -1909,12 +1979,12 @@ Proof.
   - intros h. rewrite G. reflexivity.
 Qed.
 
-Theorem sinv_run fx fs beh fuel c ops : SInv (run fx fs beh fuel (init c) ops).
+Theorem sinv_run fx fs fr beh fuel c ops : SInv (run fx fs fr beh fuel (init c) ops).
 Proof.
-  apply (rule_run fx fs beh (fun _ => SInv)) with (Rq := fun s h => h_closing (get s h) = true);
+  apply (rule_run fx fs fr beh (fun _ => SInv)) with (Rq := fun s h => h_closing (get s h) = true);
     auto using sinv_api, sinv_log, sinv_take, sinv_clq_nil, sinv_requeue, sinv_closed, sinv_init0.
   - intros; apply sinv_cb_enter; auto.
-  - intros; eapply sinv_finish; eauto. apply sinv_log; auto.
+  - intros; eapply sinv_after_cb; eauto. apply sinv_log; auto.
   - intros; unfold msg_skip; destruct fs; [eapply sinv_pop | eapply sinv_finish]; eauto.
   - intros s l h [C K] Hh. eapply (s_clq _ C); eauto.
   - intros s h' h Hc. gs. destruct (Nat.eq_dec h' h) as [->|Hn].
@@ -1926,34 +1996,34 @@ Proof.
 Qed.
 
 (* invariants S1 (sorted, duplicate-free), S2, S3 for every reachable state *)
-Theorem tree_sorted_nodup fx fs beh fuel c ops :
-  let s := run fx fs beh fuel (init c) ops in
+Theorem tree_sorted_nodup fx fs fr beh fuel c ops :
+  let s := run fx fs fr beh fuel (init c) ops in
   StronglySorted (fun a b => sig_compare (get s a) a (get s b) b = Lt) (tree s) /\ NoDup (tree s).
 Proof.
-  cbv zeta. destruct (sinv_run fx fs beh fuel c ops) as [C _]. split.
+  cbv zeta. destruct (sinv_run fx fs fr beh fuel c ops) as [C _]. split.
   - pose proof (s_sorted _ C) as S. clear C. induction S as [|y t H IH F]; constructor; auto.
     rewrite Forall_forall in *. intros z Hz. apply cmp_lt. apply F; auto.
   - eapply sorted_nodup. apply (s_sorted _ C).
 Qed.
 
-Theorem tree_iff_started fx fs beh fuel c ops h :
-  let s := run fx fs beh fuel (init c) ops in
+Theorem tree_iff_started fx fs fr beh fuel c ops h :
+  let s := run fx fs fr beh fuel (init c) ops in
   In h (tree s) <-> h_signum (get s h) <> 0.
-Proof. cbv zeta. destruct (sinv_run fx fs beh fuel c ops) as [C _]. apply (s_tree _ C). Qed.
+Proof. cbv zeta. destruct (sinv_run fx fs fr beh fuel c ops) as [C _]. apply (s_tree _ C). Qed.
 
-Theorem caught_minus_dispatched fx fs beh fuel c ops h :
-  let s := run fx fs beh fuel (init c) ops in
+Theorem caught_minus_dispatched fx fs fr beh fuel c ops h :
+  let s := run fx fs fr beh fuel (init c) ops in
   h < length (hs s) ->
   h_caught (get s h) = h_dispatched (get s h) + pending s h.
-Proof. cbv zeta. destruct (sinv_run fx fs beh fuel c ops) as [C _]. apply (s_count _ C). Qed.
+Proof. cbv zeta. destruct (sinv_run fx fs fr beh fuel c ops) as [C _]. apply (s_count _ C). Qed.
 
 (* close_cb only after every signal caught for the handle has left the pipe *)
-Theorem closed_nothing_pending fx fs beh fuel c ops h :
-  let s := run fx fs beh fuel (init c) ops in
+Theorem closed_nothing_pending fx fs fr beh fuel c ops h :
+  let s := run fx fs fr beh fuel (init c) ops in
   h_closed (get s h) = true ->
   pending s h = 0 /\ h_closing (get s h) = true /\ h_signum (get s h) = 0 /\ ~ In h (tree s).
 Proof.
-  cbv zeta. intros Hc. destruct (sinv_run fx fs beh fuel c ops) as [C K].
+  cbv zeta. intros Hc. destruct (sinv_run fx fs fr beh fuel c ops) as [C K].
   pose proof (s_closed _ C h Hc) as Hcl.
   repeat split; auto. apply (s_closed0 _ C); auto.
   rewrite (s_tree _ C). intros N. apply N. auto.
@@ -2309,14 +2379,24 @@ Proof.
   destruct (h_oneshot _); auto. apply dinv_stop; auto.
 Qed.
 
-Theorem pd_run fx fs beh fuel c ops : PD CTop (run fx fs beh fuel (init c) ops).
+Lemma pd_after_cb fr c s h sig r : PD c s -> batch s = (h, sig) :: r -> PD c (msg_after_cb fr s h sig r).
 Proof.
-  apply (rule_run fx fs beh PD) with (Rq := fun s h => h_closing (get s h) = true).
+  intros P Hb. unfold msg_after_cb. destruct fr; [|eapply pd_finish; eauto].
+  destruct P as [I D]. split; [apply (sinv_after_cb true s h sig r I Hb)|].
+  pose proof (sinv_pop s h sig r I Hb) as [C2 K2].
+  assert (D2 : DInv (upd_h (with_batch s r) h h_inc_dispatched)).
+  { apply dinv_upd; [intros; repeat split|]. deq D. }
+  destruct (_ && _); auto. apply dinv_stop; auto.
+Qed.
+
+Theorem pd_run fx fs fr beh fuel c ops : PD CTop (run fx fs fr beh fuel (init c) ops).
+Proof.
+  apply (rule_run fx fs fr beh PD) with (Rq := fun s h => h_closing (get s h) = true).
   - intros; apply pd_api; auto.
   - intros s l [I D]. split; [apply sinv_log; auto | apply dinv_log; auto].
   - intros s l [I D] Hb. split; [apply sinv_take; auto | deq D].
   - intros s h sig r [I D] _ _. split; [apply sinv_cb_enter; auto | deq D].
-  - intros s h sig r [I D] Hb. eapply pd_finish with (c := CMid) (sig := sig); [|exact Hb].
+  - intros s h sig r [I D] Hb. eapply pd_after_cb with (c := CMid); [|exact Hb].
     split; [apply sinv_log; auto | apply dinv_log; auto].
   - intros s h sig r P Hb _. unfold msg_skip. destruct fs; [|eapply pd_finish; eauto].
     destruct P as [I D]. split; [eapply sinv_pop; eauto|].
@@ -2349,46 +2429,46 @@ Definition is_handler (d : disp) : bool := match d with Handler _ => true | Defa
 Definition watches (s : state) (h sig : nat) : Prop :=
   entry s sig h /\ ~ (h_oneshot (get s h) = true /\ g_fired (get s h) = true).
 
-Theorem disposition_partial fx fs beh fuel c ops sig :
+Theorem disposition_partial fx fs fr beh fuel c ops sig :
   sig <> 0 ->
-  let s := run fx fs beh fuel (init c) ops in
+  let s := run fx fs fr beh fuel (init c) ops in
   ((forall h, ~ entry s sig h) -> disp_of s sig = Default) /\
   (forall h, entry s sig h -> h_oneshot (get s h) = false -> disp_of s sig = Handler false) /\
   (is_handler (disp_of s sig) = true -> exists h, entry s sig h) /\
   (race s = false -> (exists h, watches s h sig) -> is_handler (disp_of s sig) = true).
 Proof.
-  intros Hs. cbv zeta. destruct (pd_run fx fs beh fuel c ops) as [_ D].
+  intros Hs. cbv zeta. destruct (pd_run fx fs fr beh fuel c ops) as [_ D].
   destruct (D sig Hs) as [A B C]. repeat split; auto.
   - intros Hh.
-    destruct (existsb (fun y => h_signum (get (run fx fs beh fuel (init c) ops) y) =? sig)
-                (tree (run fx fs beh fuel (init c) ops))) eqn:E.
+    destruct (existsb (fun y => h_signum (get (run fx fs fr beh fuel (init c) ops) y) =? sig)
+                (tree (run fx fs fr beh fuel (init c) ops))) eqn:E.
     + apply existsb_exists in E. destruct E as (y&a&b). apply Nat.eqb_eq in b. exists y. split; auto.
     + rewrite A in Hh; [discriminate|]. intros y [a b].
-      assert (X : existsb (fun y => h_signum (get (run fx fs beh fuel (init c) ops) y) =? sig)
-                    (tree (run fx fs beh fuel (init c) ops)) = true); [|congruence].
+      assert (X : existsb (fun y => h_signum (get (run fx fs fr beh fuel (init c) ops) y) =? sig)
+                    (tree (run fx fs fr beh fuel (init c) ops)) = true); [|congruence].
       apply existsb_exists. exists y. split; auto. apply Nat.eqb_eq; auto.
   - intros Hr (h&He&Hn).
-    destruct (h_oneshot (get (run fx fs beh fuel (init c) ops) h)) eqn:Ef.
-    + destruct (disp_of (run fx fs beh fuel (init c) ops) sig) eqn:Ed; [|reflexivity].
+    destruct (h_oneshot (get (run fx fs fr beh fuel (init c) ops) h)) eqn:Ef.
+    + destruct (disp_of (run fx fs fr beh fuel (init c) ops) sig) eqn:Ed; [|reflexivity].
       exfalso. apply Hn. split; auto.
     + rewrite (B h He Ef). reflexivity.
 Qed.
 
 (* the full clause, as the property states it, does not hold: the SA_RESETHAND window *)
-Definition disposition_iff_watched_statement (fx fs : bool) : Prop :=
+Definition disposition_iff_watched_statement (fx fs fr : bool) : Prop :=
   forall beh fuel c ops sig, sig <> 0 ->
-  let s := run fx fs beh fuel (init c) ops in
+  let s := run fx fs fr beh fuel (init c) ops in
   is_handler (disp_of s sig) = true <-> exists h, watches s h sig.
 
 Definition race_ops : list op :=
   [OInit 0; OInit 0; OStartOneshot 0 10; ORaise 10; OStartOneshot 1 10].
 
-Theorem resethand_race_refuted : forall fx fs, ~ disposition_iff_watched_statement fx fs.
+Theorem resethand_race_refuted : forall fx fs fr, ~ disposition_iff_watched_statement fx fs fr.
 Proof.
-  intros fx fs H. specialize (H (fun _ => []) 0 16 race_ops 10).
+  intros fx fs fr H. specialize (H (fun _ => []) 0 16 race_ops 10).
   assert (N : 10 <> 0) by discriminate. specialize (H N). cbv zeta in H.
   destruct H as [_ H].
-  assert (W : exists h, watches (run fx fs (fun _ => []) 0 (init 16) race_ops) h 10).
+  assert (W : exists h, watches (run fx fs fr (fun _ => []) 0 (init 16) race_ops) h 10).
   { exists 1. destruct fx; split; vm_compute; intuition; try discriminate. }
   specialize (H W). destruct fx; vm_compute in H; discriminate.
 Qed.
@@ -2401,9 +2481,9 @@ Definition fresh_like (x : handle) (sig : nat) (os : bool) : Prop :=
 
 (* "starting it again behaves like a fresh handle": what a start on a freshly
    initialised handle gives, it gives on any stopped handle *)
-Definition restart_fresh_statement (fx fs : bool) : Prop :=
+Definition restart_fresh_statement (fx fs fr : bool) : Prop :=
   forall beh fuel c ops h sig os,
-  let s := run fx fs beh fuel (init c) ops in
+  let s := run fx fs fr beh fuel (init c) ops in
   usable s h = true -> h_signum (get s h) = 0 -> sig <> 0 -> sigok sig = true ->
   fresh_like (get (fst (sig_start fx s h sig os)) h) sig os.
 
@@ -2456,18 +2536,18 @@ Definition sticky_ops : list op :=
   [OInit 0; OStartOneshot 0 10; ORaise 10; ORun 0].
 
 (* item 3: one-shot use, then uv_signal_start: the stale flag stays *)
-Theorem oneshot_flag_sticks_refuted : forall fs, ~ restart_fresh_statement false fs.
+Theorem oneshot_flag_sticks_refuted : forall fs fr, ~ restart_fresh_statement false fs fr.
 Proof.
-  intros fs H. specialize (H (fun _ => []) 8 16 sticky_ops 0 10 false). cbv zeta in H.
-  assert (F : fresh_like (get (fst (sig_start false (run false fs (fun _ => []) 8 (init 16) sticky_ops) 0 10 false)) 0) 10 false).
-  { apply H; vm_compute; auto; discriminate. }
-  destruct F as (_&F&_). vm_compute in F. discriminate.
+  intros fs fr H. specialize (H (fun _ => []) 8 16 sticky_ops 0 10 false). cbv zeta in H.
+  assert (F : fresh_like (get (fst (sig_start false (run false fs fr (fun _ => []) 8 (init 16) sticky_ops) 0 10 false)) 0) 10 false).
+  { apply H; destruct fs, fr; vm_compute; auto; discriminate. }
+  destruct F as (_&F&_). destruct fs, fr; vm_compute in F; discriminate.
 Qed.
 
 (* ... and what that means for the program: started persistently, never stopped by the
    program, yet after one signal the handle is inactive and the disposition is the default *)
 Theorem oneshot_flag_sticks_behaviour :
-  let s := run false false (fun _ => []) 8 (init 16)
+  let s := run false false false (fun _ => []) 8 (init 16)
              (sticky_ops ++ [OStart 0 10; ORaise 10; ORun 0]) in
   h_active (get s 0) = false /\ disp_of s 10 = Default /\
   count_cb 0 (tr s) = 2 /\ mode_of (tr s) 0 = MIdle.
@@ -2475,18 +2555,18 @@ Proof. vm_compute. repeat split. Qed.
 
 (* the repaired variant keeps watching *)
 Theorem oneshot_flag_fixed_behaviour :
-  let s := run true false (fun _ => []) 8 (init 16)
+  let s := run true false false (fun _ => []) 8 (init 16)
              (sticky_ops ++ [OStart 0 10; ORaise 10; ORun 0]) in
   h_active (get s 0) = true /\ disp_of s 10 = Handler false /\ h_oneshot (get s 0) = false.
 Proof. vm_compute. repeat split. Qed.
 
 (* item 14 and its one-shot variant: a signal caught before stop + start is still in the
    pipe, so the restarted handle is not fresh (both variants) *)
-Theorem stale_signal_refuted : forall fx fs, ~ restart_fresh_statement fx fs.
+Theorem stale_signal_refuted : forall fx fs fr, ~ restart_fresh_statement fx fs fr.
 Proof.
-  intros fx fs H. specialize (H (fun _ => []) 8 16 [OInit 0; OStart 0 10; ORaise 10; OStop 0] 0 10 false).
+  intros fx fs fr H. specialize (H (fun _ => []) 8 16 [OInit 0; OStart 0 10; ORaise 10; OStop 0] 0 10 false).
   cbv zeta in H.
-  assert (F : fresh_like (get (fst (sig_start fx (run fx fs (fun _ => []) 8 (init 16) [OInit 0; OStart 0 10; ORaise 10; OStop 0]) 0 10 false)) 0) 10 false).
+  assert (F : fresh_like (get (fst (sig_start fx (run fx fs fr (fun _ => []) 8 (init 16) [OInit 0; OStart 0 10; ORaise 10; OStop 0]) 0 10 false)) 0) 10 false).
   { apply H; destruct fx; vm_compute; auto; discriminate. }
   destruct F as (_&_&F&_). destruct fx; vm_compute in F; discriminate.
 Qed.
@@ -2495,7 +2575,7 @@ Qed.
    pipe is stopped by that message without ever getting a callback *)
 Theorem oneshot_stopped_without_callback :
   forall fx,
-  let s := run fx false (fun _ => []) 8 (init 16)
+  let s := run fx false false (fun _ => []) 8 (init 16)
              [OInit 0; OStartOneshot 0 10; ORaise 10; OStartOneshot 0 12; ORun 0] in
   h_active (get s 0) = false /\ count_cb 0 (tr s) = 0 /\ disp_of s 12 = Default.
 Proof. intros fx; destruct fx; vm_compute; repeat split. Qed.
@@ -2567,15 +2647,15 @@ Qed.
 
 (* one delivery while the handler is installed: exactly one message for every handle that
    is in the tree for that signal, none for any other handle (pipe capacity as hypothesis) *)
-Theorem deliver_one_message_each fx fs beh fuel c ops sig rh :
-  let s := run fx fs beh fuel (init c) ops in
+Theorem deliver_one_message_each fx fs fr beh fuel c ops sig rh :
+  let s := run fx fs fr beh fuel (init c) ops in
   sig <> 0 -> disp_of s sig = Handler rh ->
   (forall l, length (pipe_of s l) + length (targets s sig) <= cap s) ->
   forall h, pending (fst (deliver s sig)) h =
             pending s h + (if existsb (Nat.eqb h) (filter (fun y => h_signum (get s y) =? sig) (tree s)) then 1 else 0).
 Proof.
-  cbv zeta. intros Hs Hd Hc h. destruct (sinv_run fx fs beh fuel c ops) as [C K].
-  set (s := run fx fs beh fuel (init c) ops) in *.
+  cbv zeta. intros Hs Hd Hc h. destruct (sinv_run fx fs fr beh fuel c ops) as [C K].
+  set (s := run fx fs fr beh fuel (init c) ops) in *.
   unfold deliver. rewrite Hd. cbn [fst]. unfold handler.
   set (s1 := if rh then set_disp s sig Default else s).
   assert (E1 : targets s1 sig = targets s sig) by (apply targets_hs_eq; unfold s1; destruct rh; reflexivity).
@@ -2655,15 +2735,15 @@ Qed.
 
 (* handling one message: exactly one callback, on that handle, iff the handle still watches the
    message's signal (i.e. was not stopped before the dispatch); the message is consumed *)
-Theorem dispatch_one_callback fx fs beh s h sig r h' :
-  count_cb h' (tr (process_msg fx fs beh s (h, sig) r)) =
+Theorem dispatch_one_callback fx fs fr beh s h sig r h' :
+  count_cb h' (tr (process_msg fx fs fr beh s (h, sig) r)) =
   count_cb h' (tr s) + (if (sig =? h_signum (get s h)) && (h =? h') then 1 else 0) /\
-  batch (process_msg fx fs beh s (h, sig) r) = r.
+  batch (process_msg fx fs fr beh s (h, sig) r) = r.
 Proof.
   unfold process_msg. cbn [fst snd].
   destruct (sig =? h_signum (get s h)).
-  - split; [|apply msg_finish_batch].
-    destruct (finish_spec (log (script fx (cb_enter s h sig) (beh (cbcount s))) (ECbEnd h)) h r) as (_&_&_&_&e&_).
+  - split; [|apply msg_after_cb_batch].
+    destruct (after_cb_spec fr (log (script fx (cb_enter s h sig) (beh (cbcount s))) (ECbEnd h)) h sig r) as (_&_&_&_&e&_).
     cbv zeta in e. rewrite e. simpl. rewrite script_no_cb. unfold cb_enter. ssimpl. simpl.
     destruct (h =? h'); lia.
   - split; [|apply msg_skip_batch]. unfold msg_skip. destruct fs; [simpl; lia|].
@@ -2671,13 +2751,14 @@ Proof.
 Qed.
 
 (* ------------------------------------------------------------------ *)
-(* 11. the repaired one-shot stop (fs = true,                           *)
-(*     notes/C13_fix_oneshot_stale_stop.diff)                           *)
+(* 11. the repaired one-shot stops:                                     *)
+(*     fs = true  (notes/C13_fix_oneshot_stale_stop.diff, /repo c39ecc3) *)
+(*     fr = true  (notes/C13_fix_oneshot_restart_in_cb.diff)            *)
 (* ------------------------------------------------------------------ *)
-(* a message for a signal the handle no longer watches changes nothing but dispatched_signals *)
-Theorem stale_message_keeps_handle fx beh s h sig r :
+(* fs: a message for a signal the handle no longer watches changes nothing but dispatched_signals *)
+Theorem stale_message_keeps_handle fx fr beh s h sig r :
   sig <> h_signum (get s h) ->
-  let s' := process_msg fx true beh s (h, sig) r in
+  let s' := process_msg fx true fr beh s (h, sig) r in
   (forall x, h_signum (get s' x) = h_signum (get s x) /\ h_oneshot (get s' x) = h_oneshot (get s x) /\
              h_active (get s' x) = h_active (get s x)) /\
   tree s' = tree s /\ disp_of s' = disp_of s /\ tr s' = tr s.
@@ -2686,6 +2767,52 @@ Proof.
   destruct (Nat.eqb_spec sig (h_signum (get s h))); [contradiction|].
   unfold msg_skip. split; [|repeat split]. intros x. apply inc_disp_same.
 Qed.
+
+(* fr: a handle that its own callback has started on another signal keeps that watch when the
+   callback returns *)
+Theorem restart_in_callback_kept fx fs beh s h sig r :
+  sig = h_signum (get s h) ->
+  let s1 := script fx (cb_enter s h sig) (beh (cbcount s)) in
+  h_signum (get s1 h) <> sig ->
+  let s' := process_msg fx fs true beh s (h, sig) r in
+  (forall x, h_signum (get s' x) = h_signum (get s1 x) /\ h_oneshot (get s' x) = h_oneshot (get s1 x) /\
+             h_active (get s' x) = h_active (get s1 x)) /\
+  tree s' = tree s1 /\ disp_of s' = disp_of s1.
+Proof.
+  intros Hs. cbv zeta. intros Hn. unfold process_msg. cbn [fst snd].
+  destruct (Nat.eqb_spec sig (h_signum (get s h))); [|contradiction].
+  unfold msg_after_cb.
+  set (s1 := script fx (cb_enter s h sig) (beh (cbcount s))) in *.
+  destruct (inc_disp_same (log s1 (ECbEnd h)) h r h) as (a&b&_). cbv zeta in a. rewrite a. gs.
+  destruct (Nat.eqb_spec (h_signum (get s1 h)) sig); [contradiction|]. rewrite andb_false_r.
+  split; [|split; reflexivity]. intros x.
+  destruct (inc_disp_same (log s1 (ECbEnd h)) h r x) as (a'&b'&c'). cbv zeta in *. gs_in a'. gs_in b'. gs_in c'. auto.
+Qed.
+
+(* the callback (handle, signal) the trace is inside of *)
+Fixpoint incb (t : list event) : option (nat * nat) :=
+  match t with
+  | [] => None
+  | ECb h sig :: _ => Some (h, sig)
+  | ECbEnd _ :: _ => None
+  | _ :: t' => incb t'
+  end.
+
+Definition is_one_false (m : mode) (sig : nat) : bool :=
+  match m with MOne s false => s =? sig | _ => false end.
+
+(* the program never re-arms a handle one-shot on signal S from inside that handle's callback
+   for S (after stopping it there): libuv cannot tell that from "still the first watch" *)
+Fixpoint alias_ok (t : list event) : bool :=
+  match t with
+  | [] => true
+  | e :: t' =>
+      alias_ok t' &&
+      match incb (e :: t') with
+      | Some (h, sig) => negb (is_one_false (mode_of (e :: t') h) sig)
+      | None => true
+      end
+  end.
 
 (* a handle started one-shot that has not had its callback yet is still watching: no snapshot
    (uv_is_active after an operation, at callback entry, after a run) ever finds it inactive *)
@@ -2703,9 +2830,10 @@ Fixpoint live_tr (t : list event) : Prop :=
       end
   end.
 
-Definition oneshot_live_statement (fx fs : bool) : Prop :=
+Definition oneshot_live_statement (fx fs fr : bool) : Prop :=
   forall beh fuel c ops t2 d a t0 h sg,
-  tr (run fx fs beh fuel (init c) ops) = t2 ++ ESnap d a :: t0 ->
+  tr (run fx fs fr beh fuel (init c) ops) = t2 ++ ESnap d a :: t0 ->
+  alias_ok (tr (run fx fs fr beh fuel (init c) ops)) = true ->
   mode_of t0 h = MOne sg false -> nth h a true = true.
 
 Lemma mode_sig_nonzero t x :
@@ -2727,7 +2855,7 @@ Proof.
     + destruct (h =? x); auto. repeat split; discriminate.
   - destruct (h' =? x); auto. destruct (mode_of t x) as [|q|q [|]]; auto.
     repeat split; try discriminate; congruence.
-  - destruct (h' =? x); auto. destruct (mode_of t x) as [|q|q k]; auto. repeat split; discriminate.
+  - destruct (h' =? x); auto. destruct (mode_of t x) as [|q|q [|]]; auto. repeat split; discriminate.
   - destruct (nth x aa true); auto. repeat split; discriminate.
 Qed.
 
@@ -2737,7 +2865,6 @@ Proof.
   destruct L as (_&[|[_ ?]]&_); auto. contradiction.
 Qed.
 
-(* with the handles' activity as the invariant has it, a live state passes the snapshot test *)
 Lemma live_snap s :
   (forall h, h_active (get s h) = negb (h_signum (get s h) =? 0)) -> OLive s -> live_tr (tr s) ->
   live_tr (tr (snap s)).
@@ -2748,91 +2875,195 @@ Proof.
   exfalso. destruct (mode_sig_nonzero (tr s) h) as (a&_). contradiction.
 Qed.
 
-Definition PO (c : ctx) (s : state) : Prop := TInv c s /\ OLive s /\ live_tr (tr s).
+Lemma incb_snap d a t : incb (ESnap d a :: t) = incb t.
+Proof. reflexivity. Qed.
 
-Lemma olive_frame s s' : tr s' = tr s -> (forall h, h_signum (get s' h) = h_signum (get s h)) ->
-  OLive s -> OLive s'.
-Proof. intros Et Eg O h sg Hm. rewrite Et in Hm. rewrite Eg. auto. Qed.
+Definition ctx_incb (c : ctx) (t : list event) : Prop :=
+  match c with CCb h sig => incb t = Some (h, sig) | _ => incb t = None end.
 
-Theorem po_run fx beh fuel c ops : PO CTop (run fx true beh fuel (init c) ops).
+Definition PO (c : ctx) (s : state) : Prop :=
+  TInv c s /\ ctx_incb c (tr s) /\ (alias_ok (tr s) = true -> OLive s /\ live_tr (tr s)).
+
+Lemma api_tr_kind fx s o : exists e, tr (api fx s o) = e :: tr s /\
+  incb (e :: tr s) = incb (tr s) /\ (live_tr (tr s) -> live_tr (e :: tr s)).
 Proof.
-  apply (rule_run fx true beh PO) with (Rq := fun _ _ => True); auto.
-  - intros c0 s o Hc (T&O&Lv).
+  destruct (api_tr fx s o) as (e&E&N1). destruct (api_tr2 fx s o) as (e'&E'&N2).
+  rewrite E in E'. inversion E'; subst e'. exists e. split; auto.
+  assert (K : (exists o r, e = EOp o r) \/ (exists o, e = ESkip o)).
+  { clear N1 N2 E'. revert E. destruct o; cbn [api];
+      repeat match goal with
+             | |- context [if ?b then _ else _] => destruct b
+             | |- context [let '(_, _) := ?p in _] => destruct p
+             end; cbn [log tr with_tr]; intros E; inversion E; eauto. }
+  destruct K as [(o'&r&->)|(o'&->)]; simpl; auto.
+Qed.
+
+Lemma alias_ok_tail e t : alias_ok (e :: t) = true -> alias_ok t = true.
+Proof. simpl. rewrite andb_true_iff. tauto. Qed.
+
+Lemma alias_ok_head t h sig : alias_ok t = true -> incb t = Some (h, sig) -> mode_of t h <> MOne sig false.
+Proof.
+  destruct t as [|e t]; [discriminate|]. intros A I. cbn [alias_ok] in A.
+  apply andb_true_iff in A. destruct A as [_ A]. rewrite I in A.
+  intros M. rewrite M in A. simpl in A. rewrite Nat.eqb_refl in A. discriminate.
+Qed.
+
+Theorem po_run fx beh fuel c ops : PO CTop (run fx true true beh fuel (init c) ops).
+Proof.
+  apply (rule_run fx true true beh PO) with (Rq := fun _ _ => True); auto.
+  - intros c0 s o Hc (T&I&OL).
     assert (T1 := tinv_api_pre fx c0 s o Hc T).
-    assert (T' := tinv_api fx c0 s o Hc T). split; auto. split; [eapply olive_of_link; eauto|].
-    unfold api_snap. apply live_snap; [apply (t_act _ _ T1) | eapply olive_of_link; eauto|].
-    destruct (api_tr2 fx s o) as (e&E&Ne). rewrite E. simpl. split; auto.
-    destruct e; auto. exfalso. eapply Ne. reflexivity.
-  - intros s l (T&O&Lv). split; [apply tinv_begin; auto|]. split; [|simpl; auto].
+    assert (T' := tinv_api fx c0 s o Hc T).
+    destruct (api_tr_kind fx s o) as (e&E&Ie&Le).
+    split; auto. unfold api_snap. split.
+    + cbn [snap log tr with_tr]. rewrite E.
+      destruct c0; unfold ctx_incb in *; rewrite incb_snap, Ie; auto.
+    + intros Al. split; [eapply olive_of_link; eauto|].
+      apply live_snap; [apply (t_act _ _ T1) | eapply olive_of_link; eauto|].
+      rewrite E. apply Le. apply OL.
+      cbn [snap log tr with_tr] in Al. rewrite E in Al. apply alias_ok_tail, alias_ok_tail in Al. exact Al.
+  - intros s l (T&I&OL). split; [apply tinv_begin; auto|]. split; [simpl in *; auto|].
+    intros Al. apply alias_ok_tail in Al. destruct (OL Al) as [O Lv]. split; [|simpl; auto].
     intros h sg Hm. simpl in Hm. gs. auto.
-  - intros s l (T&O&Lv) Hb. split; [apply tinv_take; auto|]. split; auto.
-  - intros s h sig r (T&O&Lv) Hb Hs. assert (T' : TInv (CCb h) (cb_enter s h sig)) by (eapply tinv_enter; eauto).
-    split; auto. split; [eapply olive_of_link; eauto; discriminate|].
-    unfold cb_enter. change (tr (with_cbcount (snap (log s (ECb h sig))) (S (cbcount (snap (log s (ECb h sig)))))))
+  - intros s l (T&I&OL) Hb. split; [apply tinv_take; auto|]. split; auto.
+  - intros s h sig r (T&I&OL) Hb Hs.
+    assert (T' : TInv (CCb h sig) (cb_enter s h sig)) by (eapply tinv_enter; eauto).
+    split; auto. split; [reflexivity|].
+    intros Al. split; [eapply olive_of_link; eauto; discriminate|].
+    unfold cb_enter.
+    change (tr (with_cbcount (snap (log s (ECb h sig))) (S (cbcount (snap (log s (ECb h sig)))))))
       with (tr (snap (log s (ECb h sig)))).
+    change (alias_ok (tr (cb_enter s h sig))) with (alias_ok (tr (snap (log s (ECb h sig))))) in Al.
+    cbn [snap log tr with_tr] in Al. apply alias_ok_tail, alias_ok_tail in Al.
+    destruct (OL Al) as [O Lv].
     apply live_snap.
     + intros x. gs. apply (t_act _ _ T).
     + intros x sg Hm. simpl in Hm. gs. destruct (Nat.eqb_spec h x) as [<-|].
       * destruct (mode_of (tr s) h) as [|q|q [|]]; try discriminate.
       * auto.
     + simpl. auto.
-  - intros s h sig r (T&O&Lv) Hb. assert (T' : TInv CMid (msg_finish (log s (ECbEnd h)) h r)) by (eapply tinv_exit; eauto).
+  - intros s h sig r (T&I&OL) Hb.
+    assert (T' : TInv CMid (msg_after_cb true (log s (ECbEnd h)) h sig r)) by (eapply tinv_exit; eauto).
     split; auto.
-    destruct (finish_spec (log s (ECbEnd h)) h r) as (f1&_&_&_&f5&_). cbv zeta in *.
-    split; [|rewrite f5; simpl; auto].
-    intros x sg Hm. rewrite f5 in Hm. simpl in Hm.
+    destruct (after_cb_spec true (log s (ECbEnd h)) h sig r) as (f1&f2&f3&f4&f5&_). cbv zeta in *.
+    split; [rewrite f5; reflexivity|].
+    unfold OLive. rewrite f5. intros Al. cbn [log tr with_tr] in Al.
+    pose proof (alias_ok_tail _ _ Al) as Al0. destruct (OL Al0) as [O Lv].
+    split; [|simpl; auto].
+    intros x sg Hm. cbn [log tr with_tr] in Hm. simpl in Hm.
     destruct (Nat.eqb_spec h x) as [<-|Hn].
-    + destruct (mode_of (tr s) h); discriminate.
-    + rewrite f1 by auto. gs. eapply olive_of_link with (c := CCb h); eauto. discriminate.
-  - intros s h sig r (T&O&Lv) Hb Hs. split; [eapply tinv_skip_fs; eauto|].
-    unfold msg_skip. split; auto. eapply olive_frame with (s := s); auto. intros x. apply inc_disp_same.
-  - intros s l (T&O&Lv). split; [apply tinv_clq; auto|]. split; auto.
-  - intros s l h (T&O&Lv) _. split; [apply tinv_clq; auto|]. split; auto.
-  - intros s h (T&O&Lv) _ Hd. split; [apply tinv_closed; auto|]. split; [|simpl; auto].
+    + destruct (mode_of (tr s) h) as [|q|q [|]] eqn:Em; try discriminate. inversion Hm; subst.
+      revert f4. gs. intros f4.
+      assert (Lk : h_signum (get s h) = sg).
+      { apply (olive_of_link (CCb h sig) s ltac:(discriminate) T h sg Em). }
+      rewrite f4; auto. right. split; auto. rewrite Lk. intros ->.
+      simpl in I. apply (alias_ok_head (tr s) h sig Al0 I). exact Em.
+    + rewrite f1 by auto. gs. apply (olive_of_link (CCb h sig) s ltac:(discriminate) T x sg Hm).
+  - intros s h sig r (T&I&OL) Hb Hs. split; [eapply tinv_skip_fs; eauto|]. split; auto.
+    intros Al. destruct (OL Al) as [O Lv]. split; auto.
+    unfold msg_skip. intros x sg Hm. destruct (inc_disp_same s h r x) as (a&_). cbv zeta in a. rewrite a. auto.
+  - intros s l (T&I&OL). split; [apply tinv_clq; auto|]. split; auto.
+  - intros s l h (T&I&OL) _. split; [apply tinv_clq; auto|]. split; auto.
+  - intros s h (T&I&OL) _ Hd. split; [apply tinv_closed; auto|]. split; [simpl in *; auto|].
+    intros Al. apply alias_ok_tail in Al. destruct (OL Al) as [O Lv]. split; [|simpl; auto].
     intros x sg Hm. simpl in Hm. gs.
     assert (E : h_signum (get (upd_h s h h_set_closed) x) = h_signum (get s x)).
     { destruct (Nat.eq_dec h x) as [<-|].
       - destruct (Nat.lt_ge_cases h (length (hs s))); [rewrite get_upd_same by auto | rewrite upd_h_oob by auto]; reflexivity.
       - rewrite get_upd_other by auto. reflexivity. }
     rewrite E. auto.
-  - intros s l (T&O&Lv). assert (T' := tinv_end s l T). split; auto.
+  - intros s l (T&I&OL). assert (T' := tinv_end s l T). split; auto. split; [simpl in *; auto|].
+    intros Al. cbn [snap log tr with_tr] in Al. apply alias_ok_tail, alias_ok_tail in Al.
+    destruct (OL Al) as [O Lv].
     split; [eapply olive_of_link; eauto; discriminate|].
     apply live_snap; [intros x; gs; apply (t_act _ _ T) | intros x sg Hm; simpl in Hm; gs; auto | simpl; auto].
-  - split; [apply tinv_init|]. split; [|simpl; auto]. intros h sg Hm. simpl in Hm. discriminate.
+  - split; [apply tinv_init|]. split; [reflexivity|]. intros _. split; [|simpl; auto].
+    intros h sg Hm. simpl in Hm. discriminate.
 Qed.
 
 Lemma live_tr_app t2 t : live_tr (t2 ++ t) -> live_tr t.
 Proof. induction t2; simpl; auto. intros [H _]; auto. Qed.
 
-Theorem oneshot_live_until_callback : forall fx, oneshot_live_statement fx true.
+Theorem oneshot_live_until_callback : forall fx, oneshot_live_statement fx true true.
 Proof.
-  intros fx beh fuel c ops t2 d a t0 h sg Ht Hm.
-  destruct (po_run fx beh fuel c ops) as (_&_&Lv). rewrite Ht in Lv.
+  intros fx beh fuel c ops t2 d a t0 h sg Ht Al Hm.
+  destruct (po_run fx beh fuel c ops) as (_&_&OL). destruct (OL Al) as [_ Lv]. rewrite Ht in Lv.
   apply live_tr_app in Lv. simpl in Lv. destruct Lv as [_ Lv]. eauto.
 Qed.
 
-(* refuted for the code as it is: the stale message stops the handle *)
-Theorem oneshot_stale_stop_refuted : forall fx, ~ oneshot_live_statement fx false.
+(* refuted before commit c39ecc3 (fs = false): a stale message stops the handle *)
+Theorem oneshot_stale_stop_refuted : forall fx fr, ~ oneshot_live_statement fx false fr.
 Proof.
-  intros fx H.
+  intros fx fr H.
   assert (X : exists d t0,
-    tr (run fx false (fun _ => []) 8 (init 16)
+    tr (run fx false fr (fun _ => []) 8 (init 16)
           [OInit 0; OStartOneshot 0 10; ORaise 10; OStartOneshot 0 12; ORun 0]) = [] ++ ESnap d [false] :: t0 /\
+    alias_ok (tr (run fx false fr (fun _ => []) 8 (init 16)
+          [OInit 0; OStartOneshot 0 10; ORaise 10; OStartOneshot 0 12; ORun 0])) = true /\
     mode_of t0 0 = MOne 12 false).
-  { destruct fx; vm_compute; eexists; eexists; split; reflexivity. }
-  destruct X as (d&t0&E&M).
-  specialize (H _ _ _ _ _ _ _ _ _ _ E M). simpl in H. discriminate.
+  { destruct fx, fr; vm_compute; eexists; eexists; repeat split; reflexivity. }
+  destruct X as (d&t0&E&Al&M).
+  specialize (H _ _ _ _ _ _ _ _ _ _ E Al M). simpl in H. discriminate.
 Qed.
 
-(* the same run with the repair: the handle keeps watching SIGUSR2, gets exactly one callback,
-   for SIGUSR2, and is then stopped *)
+Definition restart_in_cb_beh : nat -> list op :=
+  fun k => match k with 0 => [OStartOneshot 0 12] | _ => [] end.
+
+(* refuted on the code as it is (fr = false): a handle that its own one-shot callback restarts
+   one-shot on another signal is stopped when that callback returns *)
+Theorem oneshot_restart_in_cb_refuted : forall fx fs, ~ oneshot_live_statement fx fs false.
+Proof.
+  intros fx fs H.
+  assert (X : exists d t0,
+    tr (run fx fs false restart_in_cb_beh 8 (init 16)
+          [OInit 0; OStartOneshot 0 10; ORaise 10; ORun 0]) = [] ++ ESnap d [false] :: t0 /\
+    alias_ok (tr (run fx fs false restart_in_cb_beh 8 (init 16)
+          [OInit 0; OStartOneshot 0 10; ORaise 10; ORun 0])) = true /\
+    mode_of t0 0 = MOne 12 false).
+  { destruct fx, fs; vm_compute; eexists; eexists; repeat split; reflexivity. }
+  destruct X as (d&t0&E&Al&M).
+  specialize (H _ _ _ _ _ _ _ _ _ _ E Al M). simpl in H. discriminate.
+Qed.
+
+(* the witness runs with the repairs *)
 Theorem oneshot_stale_stop_fixed_behaviour :
-  forall fx,
+  forall fx fr,
   let ops := [OInit 0; OStartOneshot 0 10; ORaise 10; OStartOneshot 0 12; ORun 0] in
-  let s := run fx true (fun _ => []) 8 (init 16) ops in
-  let s2 := run fx true (fun _ => []) 8 (init 16) (ops ++ [ORaise 12; ORun 0; ORaise 12]) in
+  let s := run fx true fr (fun _ => []) 8 (init 16) ops in
+  let s2 := run fx true fr (fun _ => []) 8 (init 16) (ops ++ [ORaise 12; ORun 0; ORaise 12]) in
   (h_active (get s 0) = true /\ h_signum (get s 0) = 12 /\ count_cb 0 (tr s) = 0 /\
    disp_of s 12 = Handler true) /\
   (count_cb 0 (tr s2) = 1 /\ In (ECb 0 12) (tr s2) /\ h_active (get s2 0) = false /\
    disp_of s2 12 = Default).
-Proof. intros fx; destruct fx; vm_compute; intuition. Qed.
+Proof. intros fx fr; destruct fx, fr; vm_compute; intuition. Qed.
+
+Theorem oneshot_restart_in_cb_fixed_behaviour :
+  forall fx fs,
+  let ops := [OInit 0; OStartOneshot 0 10; ORaise 10; ORun 0] in
+  let s := run fx fs true restart_in_cb_beh 8 (init 16) ops in
+  let s2 := run fx fs true restart_in_cb_beh 8 (init 16) (ops ++ [ORaise 12; ORun 0; ORaise 12]) in
+  (h_active (get s 0) = true /\ h_signum (get s 0) = 12 /\ count_cb 0 (tr s) = 1 /\
+   disp_of s 12 = Handler true /\ fresh_like (get s 0) 12 true) /\
+  (count_cb 0 (tr s2) = 2 /\ In (ECb 0 12) (tr s2) /\ h_active (get s2 0) = false /\
+   disp_of s2 12 = Default).
+Proof. intros fx fs; destruct fx, fs; vm_compute; intuition. Qed.
+
+(* the code as it is: the restarted watch is stopped without a callback, SIGUSR2 back to default *)
+Theorem oneshot_restart_in_cb_stopped :
+  forall fx fs,
+  let s := run fx fs false restart_in_cb_beh 8 (init 16) [OInit 0; OStartOneshot 0 10; ORaise 10; ORun 0] in
+  h_active (get s 0) = false /\ count_cb 0 (tr s) = 1 /\ disp_of s 12 = Default.
+Proof. intros fx fs; destruct fx, fs; vm_compute; intuition. Qed.
+
+(* not repaired by fr (and the reason for the [alias_ok] hypothesis): re-arming one-shot on the
+   SAME signal from inside the callback - by the short circuit start or by stop + start - leaves
+   the handle stopped when the callback returns, in every variant *)
+Theorem oneshot_rearm_same_signal_in_cb :
+  forall fx fs fr (short : bool),
+  let beh := fun k => match k with
+                      | 0 => if short then [OStartOneshot 0 10] else [OStop 0; OStartOneshot 0 10]
+                      | _ => [] end in
+  let s := run fx fs fr beh 8 (init 16) [OInit 0; OStartOneshot 0 10; ORaise 10; ORun 0] in
+  h_active (get s 0) = false /\ count_cb 0 (tr s) = 1 /\ disp_of s 10 = Default /\
+  alias_ok (tr s) = short.
+Proof. intros fx fs fr short; destruct fx, fs, fr, short; vm_compute; intuition. Qed.
